@@ -3,6 +3,7 @@ package monitor
 import (
 	"bytes"
 	"fmt"
+	"strings"
 
 	"github.com/willabides/rjson"
 
@@ -22,6 +23,12 @@ func dirty(n int, seed byte) []byte {
 // C06: string tokens validated and decoded per RFC 8259, raw bytes preserved.
 func RunC06(c *Ctx) {
 	scratch := dirty(64, 0xa5)
+	// a scratch that starts out as 'var scratch []byte' (zero capacity) and is then reused, and the
+	// last few strings returned through it: a decoded string must stay what it was when later calls
+	// reuse the scratch (seeded change C06r5-m1 returned the freshly grown scratch itself)
+	var lazy []byte
+	type heldStr struct{ got, want string }
+	var held []heldStr
 	check := func(cs *h.Case) {
 		d := cs.Input
 		p0 := refmodel.SkipWS(d, 0)
@@ -92,14 +99,36 @@ func RunC06(c *Ctx) {
 			}
 		})
 		c.Guarded(cs, "ReadString", func() {
-			for i := 0; i < 2; i++ {
+			for i := 0; i < 3; i++ {
 				var buf *[]byte
 				name := "ReadString(nil)"
 				if i == 1 {
 					buf = &scratch
 					name = "ReadString(dirty scratch)"
+				} else if i == 2 {
+					if c.Rec.R.Cases%5 == 0 {
+						lazy = nil
+					}
+					buf = &lazy
+					name = "ReadString(scratch that started with zero capacity)"
 				}
 				got, p, err := rjson.ReadString(d, buf)
+				if i == 2 {
+					for _, hs := range held {
+						if hs.got != hs.want {
+							c.Rec.Violate(cs, "a string returned earlier changed when the scratch buffer was reused", "ReadString", h.Quote([]byte(hs.want)), h.Quote([]byte(hs.got)))
+							held = held[:0]
+							break
+						}
+					}
+					if err == nil && len(got) <= 512 {
+						if len(held) >= 4 {
+							held = held[1:]
+						}
+						held = append(held, heldStr{got, strings.Clone(got)})
+						c.Rec.C("returned_strings_held_across_scratch_reuse")
+					}
+				}
 				c.Rec.Evals(1)
 				if (err == nil) != wok {
 					c.Rec.Violate(cs, name+" success!=model", "ReadString", exp, fmt.Sprintf("val=%q p=%d err=%s", got, p, errStr(err)))
